@@ -453,3 +453,45 @@ def check(prog, run):
                        "descriptions: the described argument's description is missing from the printed schema"
                        % ("/".join("present" if d else "absent" for d in vec), qtxt, val))
             break
+
+    # ---- P11 a first line that starts with a blank stays on the opening line
+    r = run.rule("P11", "ASTSchemaPrinter.print_description, block form: the predicate deciding that the first line starts with "
+                        "whitespace (then it is printed directly after the opening quotes, because the block-string reader would "
+                        "strip it as common indentation otherwise) is folded for the first lines 'x', ' x', '\\\\tx' and must be False, "
+                        "True, True: space and tab are the two blanks the reader dedents", 1)
+    pd = prog.get_func("py_gql.sdl.ast_schema_printer", "ASTSchemaPrinter.print_description")
+    run.looked_at(pd)
+    firsts = [n.targets[0].id for n in own_nodes(pd.node) if isinstance(n, ast.Assign) and len(n.targets) == 1 and isinstance(n.targets[0], ast.Name)
+              and isinstance(n.value, ast.Subscript) and isinstance(n.value.slice, ast.Constant) and n.value.slice.value == 0]
+    if not firsts:
+        raise AnalysisError("C12.P11: the first line of the description is not bound to a local in print_description")
+    preds = []
+    for first in sorted(set(firsts)):
+        for n in own_nodes(pd.node):
+            if isinstance(n, ast.Assign) and len(n.targets) == 1 and isinstance(n.targets[0], ast.Name):
+                names = {x.id for x in ast.walk(n.value) if isinstance(x, ast.Name)}
+                if first in names and names <= {first, "len", "bool"} and not isinstance(n.value, ast.Subscript):
+                    # used as a condition somewhere?
+                    used = any(isinstance(t, (ast.IfExp, ast.If)) and any(isinstance(y, ast.Name) and y.id == n.targets[0].id for y in ast.walk(t.test))
+                               for t in own_nodes(pd.node))
+                    if used:
+                        preds.append((n, first))
+    if len(preds) != 1:
+        raise AnalysisError("C12.P11: leading-whitespace predicate of print_description not recognised (%d candidates)" % len(preds))
+    first = preds[0][1]
+    preds = [preds[0][0]]
+    expr = ast.Expression(body=preds[0].value)
+    ast.fix_missing_locations(expr)
+    code = compile(expr, "<predicate>", "eval")
+    got = {}
+    for sample in ("x", " x", "\tx"):
+        try:
+            got[sample] = bool(eval(code, {"__builtins__": {"len": len, "bool": bool}}, {first: sample}))     # str methods on a constant
+        except Exception as e:
+            raise AnalysisError("C12.P11: cannot fold the predicate for %r: %s" % (sample, e))
+    r.instance("`%s` folds to %s" % (" ".join(ast.unparse(preds[0].value).split()), got))
+    if got != {"x": False, " x": True, "\tx": True}:
+        run.report(r, "py_gql.sdl.ast_schema_printer:ASTSchemaPrinter.print_description:leading-whitespace", pd.where(preds[0]),
+                   "the leading-whitespace test `%s` gives %s for the first lines 'x', ' x', '\\tx' (expected False, True, True): a "
+                   "description starting with the blank it misses is printed on its own indented line and read back without it"
+                   % (" ".join(ast.unparse(preds[0].value).split()), [got[k] for k in ("x", " x", "\tx")]))
